@@ -532,6 +532,9 @@ def remap_by_types(
             if len(call_node.args) == 0:
                 r = call_method()
             elif len(call_node.args) == 1:
+                # The nested lambda belongs to the query being built: it is followed (and edited)
+                # in place. Lambdas handed in by the user are copied first (see `parse_as_ast`).
+                call_node.args[0]._followed_in_place = True  # type: ignore
                 r = call_method(call_node.args[0], known_types=self._found_types)
             else:
                 return None
